@@ -219,3 +219,14 @@ def is_quoted_strict(v):
             return False
         i += 1
     return False
+
+
+def is_literal_strict(v):
+    """v is exactly one literal: {n}CRLF followed by exactly n octets"""
+    m = None
+    if not v.startswith(b"{"):
+        return False
+    k = v.find(b"}\r\n")
+    if k < 2 or not v[1:k].isdigit():
+        return False
+    return len(v) - (k + 3) == int(v[1:k])
